@@ -24,6 +24,15 @@ CHECKS = {
              're-used afterwards in a quarter of the cases; DOM documents are adopted and outlive the parser. After destroying the objects the parser\'s ledger must be empty and must never have '
              'been handed a foreign block; the global ledger must be empty after Terminate; LeakSanitizer runs at exit; Initialize/Terminate cycles (nested 0-3 deep) each get their own ledger.',
         note='Trusted: the ledger (hash set of live blocks under a mutex) and LeakSanitizer. Only allocations routed through MemoryManager are attributed to a manager.'),
+    'C19': dict(
+        category='exploration', design_ref='DESIGN.md §4 C19',
+        technique='runtime monitoring: system-call log (strace openat/connect on the uninstrumented build) + recording entity resolver + EntityPush hook counter as oracles over a configuration lattice',
+        text='A document graph on disk (external DTD subset with relative external general and parameter entities, an external entity of the internal subset, a schema with include and import, a DOCTYPE '
+             'served by a loopback HTTP listener) is parsed under the lattice {4 scanners x disableDefaultEntityResolution x validation scheme x loadExternalDTD x doSchema x loadSchema x resolver '
+             'absent / returning null / supplying the source} with 4 APIs while strace records every open and connect: forbidden resources must not be touched, opened paths must be designated by the '
+             'graph (RFC 2396 resolution against the containing entity), must have been offered to the resolver first, and must not be opened when the resolver supplied a source; required resources '
+             'must be fetched. Documents with exactly N entity expansions around each limit L (0..1000; content, attribute, nested, mixed) and reference cycles of length 1-6 check the expansion bound.',
+        note='Trusted: strace and the marker-based attribution of system calls to cases; the hook counter. HTTP redirects/proxies not modelled. Parameter-entity expansion is a known finding.'),
     'C15': dict(
         category='exploration', design_ref='DESIGN.md §4 C15',
         technique='runtime monitoring: differential oracle over operation histories (n-th operation on a used parser vs the same operation on a fresh parser), under ASan+UBSan',
